@@ -28,8 +28,8 @@ Lemma gen_sameFileStat_is_model : forall cur st,
   run_sameFileStat (true, None) cur st = (stat_eqb cur st, None).
 Proof.
   intros cur st. unfold run_sameFileStat, gen_caco3_sameFileStat, stat_eqb, go_str_eqb.
-  cbn [go_isnil negb]. cbv zeta. rewrite str_eqb_bs.
-  rewrite !Z_of_N_eqb. reflexivity.
+  cbn [go_isnil]. cbv zeta. rewrite ?str_eqb_bs, ?Z_of_N_eqb.
+  go_cases; go_atoms; go_leaf.
 Qed.
 
 (** A file that is gone is reported as changed without an error; any other
@@ -40,7 +40,7 @@ Lemma code_sameFileStat_errors : forall present k m cur st,
     else (false, Some (GoErr k ("check current: " ++ m)%string)).
 Proof.
   intros. unfold run_sameFileStat, gen_caco3_sameFileStat, errcode_Is, errcode_Annotate.
-  cbn [go_isnil negb]. destruct (String.eqb k "NotFound"); reflexivity.
+  cbn [go_isnil]. cbv zeta. go_cases; go_leaf.
 Qed.
 
 (** Read over the code: "same" means the very same stat record. *)
